@@ -75,7 +75,7 @@ TCODE = {"s": "string", "i": "integer", "f": "float", "b": "boolean", "c": "comp
 NAN = float("nan")
 INF = float("inf")
 ABSENT = "<absent>"
-CHUNK = 250  # round trips per case (upper bound before sub-point checks)
+CHUNK = 16  # data sets per case: small, so that the simplest-first order still spreads over the workers
 PACKED_ROWS = 24
 BIG_ROWS = 10000
 
